@@ -215,15 +215,18 @@ pub fn check(c: &FragCase, obs: &mut Obs) -> Check {
     let maxc = t.iter().flatten().fold(0.0f64, |a, &b| a.max(b));
     let zr = z.iter().cloned().fold(f64::MIN, f64::max) - z.iter().cloned().fold(f64::MAX, f64::min);
     let zmag = z.iter().cloned().fold(0.0, f64::max);
-    // DESIGN D-c: where the 0.5 % bound is asserted at full strength
+    // DESIGN D-c (revised after the F1 fix made slivers accurate): the 0.5 % bound is asserted at full strength for
+    // well-shaped triangles (smallest altitude >= 1 px, coordinates <= 128 px). Elsewhere the stepped edges place a
+    // fragment only to within pos_err(S) px, i.e. to within pos_err/altitude of the way across the triangle, and the
+    // perspective gradient can be up to z-ratio times the average one: that relative error is added. When it
+    // exceeds the whole range the interpolation clause says nothing (finiteness only).
     let well_shaped = alt >= 1.0 && maxc <= 128.0;
-    let factor = if well_shaped { 1.0 } else { (maxc.max(128.0) / alt.max(1e-9) / 128.0).max(1.0) };
-    let finite_only = alt < 0.01;
-    // outside the well-shaped domain the sampling-position error of the stepped edges (band_for) times the
-    // steepest perspective gradient (range * z-ratio / altitude) bounds the attribute error (DESIGN D-c/D-i)
     let zmin = z.iter().cloned().fold(f64::MAX, f64::min);
     let zratio = if zmin > 0.0 { z.iter().cloned().fold(f64::MIN, f64::max) / zmin } else { 1.0 };
-    let steep = if well_shaped { 0.0 } else { 2.0 * band_for(maxc) * zratio / alt.max(1e-9) };
+    let pos_err = (6.7e-8 * maxc * maxc).max(5e-7 * maxc.max(1.0));
+    let steep = if well_shaped { 0.0 } else { 2.0 * pos_err * zratio / alt.max(1e-12) };
+    let factor = 1.0;
+    let finite_only = steep > 1.0;
     let check_finite = area2 * 0.5 > 1e-6;
     let pos_tol = band_for(maxc).max(1e-3);
     // f32 rounding floor for (nearly) constant fields, where 0.5 % of the range is ~0: the
@@ -305,7 +308,7 @@ pub fn check(c: &FragCase, obs: &mut Obs) -> Check {
         _ => "attr:(Vec3,(f32,Point2))",
     });
     obs.class(if finite_only {
-        "domain:finite-only(alt<0.01)"
+        "domain:finite-only(position error exceeds the triangle's width)"
     } else if well_shaped {
         "domain:strict-0.5%"
     } else {
@@ -331,7 +334,7 @@ pub fn check(c: &FragCase, obs: &mut Obs) -> Check {
 
 pub fn run(cx: &mut Ctx) {
     cx.assume("coordinates are finite and non-negative (DESIGN D-b); reciprocal depths in [0.1, 1] (w ratio <= 10:1)");
-    cx.assume("0.5 % of the per-component vertex range (+1e-5 of the magnitude) is asserted for triangles with smallest altitude >= 1 px and coordinates <= 128 px; thinner or larger triangles get the tolerance scaled by max(1,(S/altitude)/128); below 0.01 px altitude only finiteness (DESIGN D-c)");
+    cx.assume("0.5 % of the per-component vertex range (+ a rounding floor of 2e-4 of the magnitude) is asserted for triangles with smallest altitude >= 1 px and coordinates <= 128 px; thinner or larger triangles add 2*pos_err(S)*z-ratio/altitude of the range, pos_err(S) = max(6.7e-8 S^2, 5e-7 S) px; where that exceeds the range only finiteness is asserted (DESIGN D-c)");
     cx.assume("colour attributes are interpolated affinely by design (ZDiv identity); they are generated with equal depth at the three vertices (DESIGN D-e)");
     let n = cx.n(300_000, 10_000_000);
     cx.prop_check("fragments", n, frag_case, |c, obs| check(c, obs));
